@@ -31,3 +31,29 @@
   0))))))
 (define-fun intervalSize ((n Int) (q Int)) Int
   (+ (majorScaleSize (simpleNumber n)) (* 12 (octavesOf n)) (qualityAdjust n q)))
+; ---- notes ----
+; letters are indexed C D E F G A B = 0..6
+(define-fun letterSemi ((i Int)) Int
+  (ite (= i 0) 0 (ite (= i 1) 2 (ite (= i 2) 4 (ite (= i 3) 5 (ite (= i 4) 7 (ite (= i 5) 9 11)))))))
+(define-fun isNaturalPC ((p Int)) Bool
+  (or (= p 0) (= p 2) (= p 4) (= p 5) (= p 7) (= p 9) (= p 11)))
+; coerced ("notation") qualities: 1 natural (major or perfect), 2 flat (minor, or diminished on the perfect class),
+; 3 sharp (augmented), 4 double flat (diminished), 5 double sharp (doubly augmented), 6 triple flat (doubly diminished)
+(define-fun coerceQual ((c Int) (n Int)) Int
+  (ite (= c 1) (ite (perfectClass n) Q_PERFECT Q_MAJOR)
+  (ite (= c 2) (ite (perfectClass n) Q_DIM Q_MINOR)
+  (ite (= c 3) Q_AUG
+  (ite (= c 4) Q_DIM
+  (ite (= c 5) Q_AUG2
+  (ite (= c 6) Q_DIM2 0)))))))
+; the notation class a quality prints as
+(define-fun qualCoerce ((q Int)) Int
+  (ite (or (= q Q_MAJOR) (= q Q_PERFECT)) 1
+  (ite (= q Q_MINOR) 2
+  (ite (= q Q_AUG) 3
+  (ite (= q Q_DIM) 4
+  (ite (= q Q_AUG2) 5
+  (ite (= q Q_DIM2) 6 0)))))))
+; floor division / modulus by a positive constant (pitch class and octave of a semitone count)
+(define-fun fdiv ((a Int) (b Int)) Int (div a b))
+(define-fun fmod ((a Int) (b Int)) Int (mod a b))
